@@ -246,6 +246,30 @@ func main() {
 		o.Set(name, anchor, strings.Join(ops, ","), ok, "lt")
 	}
 
+	// ---------------------------------------------------------------- 2b. lsm.zeroVersion
+	// `lost`: the only acceptance test of a table hit is `*maxVs < version` (an if statement whose
+	// whole condition is that comparison) and the callers start from a zero uint64, so a stored
+	// version 0 can never be returned from an SST.  No shape yielding `found` exists today.
+	{
+		const name, anchor = "lsm.zeroVersion", "lsm/table.go:Search"
+		fd := tb.Func("table.Search")
+		want := "*" + param(fd, 1, "maxVs") + " < version"
+		hit := false
+		for _, st := range ifsUnder(body(fd)) {
+			if tb.Src(st.Cond) == want {
+				hit = true
+			}
+		}
+		l0 := lv.Src(body(lv.Func("levelHandler.searchL0SST")))
+		lg := lv.Src(body(lv.Func("levelHandler.Get")))
+		ok := hit && strings.Contains(l0, "version uint64") && strings.Contains(l0, "table.Search(key, &version)") &&
+			strings.Contains(lg, "maxVer uint64")
+		if !ok {
+			why(name, "acceptance `%s` as a whole if-condition: %v; zero-initialised version variables in searchL0SST / levelHandler.Get", want, hit)
+		}
+		o.Set(name, anchor, "lost", ok, "lost")
+	}
+
 	// ---------------------------------------------------------------- 3. lsm.crossPick
 	{
 		const name, anchor = "lsm.crossPick", "lsm/lsm.go:Get"
@@ -633,12 +657,14 @@ namespace NoKV.Generated.Lsm
 def cfg : NoKV.Lsm.Cfg :=
   { l0SearchDir := .%s, tieRule := .%s, crossPick := .%s, levelOrder := .%s,
     ingestOrder := .%s, immOrder := .%s, mergeKeeps := .%s,
-    compactTopOrder := .%s, overlapRightKey := .%s, plainKeyLimit := %s }
+    compactTopOrder := .%s, overlapRightKey := .%s, plainKeyLimit := %s,
+    zeroVersionFound := %s }
 
 end NoKV.Generated.Lsm
 `,
 		f["lsm.l0SearchDir"], f["lsm.tieRule"], f["lsm.crossPick"], f["lsm.levelOrder"],
 		f["lsm.ingestOrder"], f["lsm.immOrder"], f["merge.eqKeeps"],
-		f["lsm.compactTopOrder"], f["lsm.overlapRightKey"], f["db.plainKeyLimit"])
+		f["lsm.compactTopOrder"], f["lsm.overlapRightKey"], f["db.plainKeyLimit"],
+		map[string]string{"found": "true", "lost": "false"}[f["lsm.zeroVersion"]])
 	o.Write(*jsonOut, *leanOut, lean)
 }
